@@ -103,7 +103,92 @@ var c20Deliveries = []string{"one-read", "byte-per-read", "zero-length-reads-int
 
 func c20Total() int { return len(c20Ops) * (32*len(c20Errs)*2*len(c20Deliveries) + len(c20Deliveries)) }
 
+// readers passed BY VALUE whose value is the zero value of their type (a library that tests
+// its source for "is it set?" with anything but a comparison to nil would take them for absent)
+type dryByValue struct{}
+
+func (dryByValue) Read(p []byte) (int, error) { return 0, io.EOF }
+
+type zerosByValue struct{}
+
+func (zerosByValue) Read(p []byte) (int, error) {
+	for i := range p {
+		p[i] = 0
+	}
+	return len(p), nil
+}
+
+var c20ByValueOps = []string{"Builder.Build(WithRNG)", "New(rng)", "Append(built parent)"}
+
+// c20ByValue: case k in 0..5 = (operation k%3, dry source for k<3 / all-zero source for k>=3).
+func c20ByValue(c *core.C, k int) {
+	op := k % 3
+	dry := k < 3
+	var src io.Reader = zerosByValue{}
+	if dry {
+		src = dryByValue{}
+	}
+	pub, priv := lib.KeyPair(c.Seed, fmt.Sprintf("c20-bv-root-%d", k))
+	blk := ast.Block{Facts: []ast.Pred{ast.P("right", ast.Str("file1"), ast.Str("read"))}}
+	var tok *biscuit.Biscuit
+	var err error
+	c.Eval(1)
+	pi := lib.Try(func() {
+		switch op {
+		case 0:
+			b := biscuit.NewBuilder(priv, biscuit.WithRNG(src))
+			lib.FillAuthority(b, blk)
+			tok, err = b.Build()
+		case 1:
+			bb := biscuit.NewBlockBuilder(&datalog.SymbolTable{})
+			lib.FillBlock(bb, blk)
+			tok, err = biscuit.New(src, priv, &datalog.SymbolTable{}, bb.Build())
+		default:
+			parent, perr := lib.Build(priv, lib.NewDetRand(c.Seed, fmt.Sprintf("c20-bv-parent-%d", k)), []ast.Block{blk}, nil)
+			if perr != nil {
+				err = perr
+				return
+			}
+			bb := parent.B.CreateBlock()
+			lib.FillBlock(bb, ast.Block{Facts: []ast.Pred{ast.P("note", ast.Int(1))}})
+			tok, err = parent.B.Append(src, bb.Build())
+		}
+	})
+	name := c20ByValueOps[op] + map[bool]string{true: ", dry reader passed by value", false: ", all-zero reader passed by value"}[dry]
+	desc := map[string]any{"kind": "fault case", "operation": name}
+	switch {
+	case pi != nil:
+		c.Violate("entropy-panic/"+pi.Site, name+": "+pi.Msg, desc)
+	case dry && tok != nil:
+		c.Violate("token-despite-entropy-failure/"+name, fmt.Sprintf("a token was returned although the source never delivered a byte (err=%v)", err), desc)
+	case dry && err == nil:
+		c.Violate("no-error-on-entropy-failure/"+name, "neither token nor error", desc)
+	case !dry && (tok == nil || err != nil):
+		c.Violate("control-failed/"+name, fmt.Sprintf("%v", err), desc)
+	case !dry:
+		ser, _ := tok.Serialize()
+		env, derr := wire.Decode(ser)
+		if derr != nil {
+			c.Violate("control-undecodable", derr.Error(), desc)
+			break
+		}
+		if env.ProofKind != wire.ProofSecret || !bytes.Equal(env.Proof, make([]byte, 32)) {
+			c.Violate("proof-secret-not-from-source", name+": the source delivered 32 zero bytes, the next secret is something else", desc)
+		}
+		if verr := wire.VerifyChain(env, pub); verr != nil {
+			c.Violate("control-token-does-not-verify", verr.Error(), desc)
+		}
+	}
+	c.NT("by-value/" + name)
+	c.Count("by_value_reader_cases", 1)
+	c.Sample(desc)
+}
+
 func c20Run(c *core.C) {
+	if c.Idx >= c20Total() {
+		c20ByValue(c, c.Idx-c20Total())
+		return
+	}
 	perOp := 32*len(c20Errs)*2*len(c20Deliveries) + len(c20Deliveries)
 	op := c.Idx / perOp
 	rest := c.Idx % perOp
@@ -284,12 +369,12 @@ func c20Run(c *core.C) {
 func init() {
 	core.Register(&core.Prop{
 		ID:        "C20",
-		MinCounts: map[string]int{"retries_after_failure": 500},
+		MinCounts: map[string]int{"retries_after_failure": 500, "by_value_reader_cases": 6},
 		Level:     "fault_enumeration",
-		Rule: fmt.Sprintf("exhaustive fault enumeration (complete in both tiers, %d cases): operation in {Builder.Build with WithRNG, New(rng,...), Append on a built parent, Append on a re-loaded parent, both Appends again with a source that REPLAYS the stream the parent was built from (its first 32 bytes are the secret the parent already carries; failure points 32..63, so a library that draws a second time is handed the error), Build / New / Append with a source whose first 32 bytes are zero (failure points 32..63 likewise), and Build asked AGAIN on the same builder after the failure with the source recovered (the second token's secret must be 32 consecutive delivered bytes)} x failure point k in 0..31 delivered bytes x error in {io.EOF, io.ErrUnexpectedEOF, custom} x {error on the next read, error together with the last bytes} x delivery in {one read, one byte per read, zero-length reads interleaved}, plus the no-failure control of every delivery. Oracle: a source that handed the library an error must give an error and no token (and no panic); a returned token must carry exactly the delivered 32 bytes as next secret, announce the public key of that seed and verify under the independent chain verifier. ", c20Total()) +
+		Rule: fmt.Sprintf("exhaustive fault enumeration (complete in both tiers, %d cases): operation in {Builder.Build with WithRNG, New(rng,...), Append on a built parent, Append on a re-loaded parent, both Appends again with a source that REPLAYS the stream the parent was built from (its first 32 bytes are the secret the parent already carries; failure points 32..63, so a library that draws a second time is handed the error), Build / New / Append with a source whose first 32 bytes are zero (failure points 32..63 likewise), and Build asked AGAIN on the same builder after the failure with the source recovered (the second token's secret must be 32 consecutive delivered bytes), and six cases with readers passed by value whose value is the zero value of their type (one never delivers, one delivers zeros)} x failure point k in 0..31 delivered bytes x error in {io.EOF, io.ErrUnexpectedEOF, custom} x {error on the next read, error together with the last bytes} x delivery in {one read, one byte per read, zero-length reads interleaved}, plus the no-failure control of every delivery. Oracle: a source that handed the library an error must give an error and no token (and no panic); a returned token must carry exactly the delivered 32 bytes as next secret, announce the public key of that seed and verify under the independent chain verifier. ", c20Total()+6) +
 			"Non-trivial = distinct (operation, k, error, timing, delivery) tuples; every one injects a real fault or is a control.",
 		Assumptions: []string{"crypto/ed25519.GenerateKey draws exactly 32 bytes from the supplied reader with io.ReadFull (true for the pinned toolchain go1.23)"},
-		NumCases:    func(string) int { return c20Total() },
+		NumCases:    func(string) int { return c20Total() + 6 },
 		Run:         c20Run,
 		Exhaustive:  func(string) bool { return true },
 		Floor: func(a *core.Agg) []string {
